@@ -190,7 +190,7 @@ CHECKS["C15"] = (
 
 EXTRA = {
     "C01": " Engines are also configured through Engine.configure on an engine built without operators, rules re-texted on the same objects and reloaded by restart(), non-General activation methods drawn in a quarter of the engines, rows with a single missing (NaN) input planted.",
-    "C02": " The same engine may first process an earlier batch (another size, or the same size with the new batch written into the arrays the variables already hold); NaN rows are planted after valid and after infinite-output rows.",
+    "C02": " The same engine may first process an earlier batch (another size, or the same size with the new batch written into the arrays the variables already hold); NaN rows are planted after valid and after infinite-output rows. Long batches (up to 131 073 rows tiled from 2-7 distinct rows, lock-previous off) must give every row the degrees and values of the short batch.",
     "C03": " Includes Discrete terms with a vertical edge and the public sort(), rectangles unbounded on one side, degenerate vertical edges, overlapping PiShape halves, negative Spike widths, in-place re-parameterisation of a used term object, float32 / integer / column-major presentations and the invariant that array arguments are never mutated. Single arrays of up to 262 147 points (lengths at and next to powers of two, above and below 65 536, optionally 2-D) are evaluated for every term class and compared element by element with the scalar membership.",
     "C04": " A deterministic boundary grid (0, 1, 1/2, float neighbours, 1-2^-k, 2^-k, values within the library tolerance of 0 and 1, magnitudes whose products underflow) runs for all 16 norms in every tier; crisp degrees are also given as bool / int scalars and arrays; arguments must not be mutated. Operands of different shapes as the library passes them (column (rows,1) x row (m,), swapped, scalar x array both ways) must give the (rows, m) table of the formula, on boundary, k/16 and generated lists in different orders. Operand arrays of up to 1 048 579 elements are compared element by element with the Fraction-checked 65 x 65 table.",
     "C05": " Arrays are also presented column-major and as float32; arguments must not be mutated and results must be fresh values (editing a returned array must not change the next call). Single arrays of up to 1 048 579 degrees (lengths at and next to powers of two, above and below 65 536, optionally 2-D) are compared element by element with the vectorised reference formulas.",
